@@ -302,6 +302,49 @@ class Loader(yaml.SafeLoader):
         self.yaml_implicit_resolvers = new_implicit_resolvers
 
 
+def _checked_scalar_constructor(
+        construct: Callable[[Any, yaml.Node], Any]
+        ) -> Callable[[Any, yaml.Node], Any]:
+    """Wraps a PyYAML scalar constructor to report invalid values.
+
+    PyYAML's constructors for int, float, bool and timestamp assume
+    that the scalar matches the corresponding resolver pattern. For a
+    scalar with an explicit tag, e.g. ``!!int abc``, that is not the
+    case, and they raise whatever the conversion happens to raise.
+
+    Args:
+        construct: The PyYAML constructor to wrap.
+
+    Returns:
+        A constructor that raises RecognitionError for invalid values.
+    """
+    def checked_construct(loader: Any, node: yaml.Node) -> Any:
+        try:
+            return construct(loader, node)
+        except (
+                AttributeError, IndexError, KeyError, OverflowError,
+                TypeError, ValueError):
+            raise RecognitionError(
+                    '{}\nInvalid value for a scalar with tag {}'.format(
+                        node.start_mark, node.tag))
+    return checked_construct
+
+
+Loader.add_constructor(
+        'tag:yaml.org,2002:bool',
+        _checked_scalar_constructor(yaml.SafeLoader.construct_yaml_bool))
+Loader.add_constructor(
+        'tag:yaml.org,2002:int',
+        _checked_scalar_constructor(yaml.SafeLoader.construct_yaml_int))
+Loader.add_constructor(
+        'tag:yaml.org,2002:float',
+        _checked_scalar_constructor(yaml.SafeLoader.construct_yaml_float))
+Loader.add_constructor(
+        'tag:yaml.org,2002:timestamp',
+        _checked_scalar_constructor(
+            yaml.SafeLoader.construct_yaml_timestamp))
+
+
 def set_document_type(loader_cls: Type, type_: Type) -> None:
     """Set the type corresponding to the whole document.
 
